@@ -389,6 +389,14 @@ pub fn run(opts: &Opts) -> Report {
                     rep.fail("oracle", &format!("set-negate/{}", op.sig()), vec![format!("text={:?}", text), line.clone(), "toggle_negate".into()], &(!*g).to_string(), &b2s(&g2));
                 }
             }
+            // the laws of the property on sets: embeds is the converse of embedded, before of after, precedes of succeeds;
+            // equals and overlaps are symmetric (both sets not empty, without negation: a negated test is the complement)
+            if let (Ok(g), Some(cv), false, false) = (&got, converse(op), op.neg, b.is_empty()) {
+                let g2 = guarded(|| sb.test_set(&cv.to_op(), &sa, res));
+                if g2.is_ok() && g2 != Ok(*g) {
+                    rep.fail("oracle", &format!("set-converse/{}", op.sig()), vec![format!("text={:?}", text), line.clone(), format!("and the other way round: {} with {}", bstr, cv.proto())], &format!("the same answer both ways ({})", g), &b2s(&g2));
+                }
+            }
             // a set is a set: whether sort() was called on it or not, the answer is the same
             // (SAMERANGE with `all` is left out: it tests the whole range of "the" leftmost and "the" rightmost item, and with
             // several items sharing the lowest begin or the highest end which item that is depends on the order of insertion,
